@@ -622,7 +622,7 @@ WHOLE_SPECS = [
                     '<l> ::= r"[a-c]"\n<x> ::= r"[0-9]"\n'),
     ("in_rep", PY + '<start> ::= <it>{1,3}\n<it> ::= <m> ";"\n<m> ::= <len> ":" <body> := frame(str(<body>))\n'
                '<len> ::= r"[0-9]+"\n<body> ::= <l>{1,3} := unframe(str(<m>))\n<l> ::= r"[a-c]"\n'),
-    ("random_arg", PY + '<start> ::= <w> "=" <g>\n<w> ::= <g> "+" <k> := str(<k>) + "+" + pick()\n<g> ::= <l>+ := pick()\n'
+    ("random_arg", PY + '<start> ::= <w> "=" <g>\n<w> ::= <k> "+" <g> := str(<k>) + "+" + pick()\n<g> ::= <l>+ := pick()\n'
                    '<l> ::= r"[a-z]"\n<k> ::= r"[a-c]{1,2}"\n'),
     ("unsound_conv", 'def fx(a):\n    return "x"\ndef hq(g):\n    return "q"\n<start> ::= <g> "-"\n'
                      '<g> ::= r"[a-z]" := fx(str(<a>))\n<a> ::= r"[pq]" := hq(str(<g>))\n'),
@@ -1038,7 +1038,7 @@ def main(tier: str) -> int:
     t0 = time.time()
     stage_ops(ctx, run.rng("ops"), 60 if quick else 600)
     run.coverage["t_ops_s"] = round(time.time() - t0, 1)
-    stage_whole(ctx, run.rng("whole"), 160 if quick else 2000)
+    stage_whole(ctx, run.rng("whole"), 600 if quick else 6000)
     run.coverage["t_whole_s"] = round(time.time() - t0, 1)
     stage_evolution(ctx, run.rng("evolution"), 63 if quick else 700, 6 if quick else 8)
     run.coverage["t_evolution_s"] = round(time.time() - t0, 1)
